@@ -506,6 +506,7 @@ def run(ctx):
 
     # ------------------------------------------------------------ R07.7
     char_literal_values(ctx)
+    digit_strings(ctx)
 
     # ------------------------------------------------------------ R07.6
     n_c = 0
@@ -690,4 +691,65 @@ def char_literal_values(ctx):
             seen[inst] = tuple(types)
             ctx.ob("R07.7", inst, not bad, f.loc(x), "`%s` converts through %s: %s" % (show(x), types or ["(implicit)"], "; ".join(bad) if bad else "equal to the compiler's value at all sample bytes"))
     ctx.floor("R07.7", "character-literal value sites", n, 2)
+
+
+
+
+def digit_strings(ctx):
+    """R07.8: get_number() collects a literal's digits in a std::string and converts it with strtol/pstrtod.  Each input
+    character must enter the string exactly once: a string seeded with a character that was only *peeked* receives the
+    same character again from the first get() of the collecting loop (0b101 -> "1101")."""
+    db = ctx.db
+    ctx.rule("R07.8", "in the number scanner no digit string is seeded from a character that has only been peeked (its last assignment is from peek()/skip_digit_separator(peek())) when the string is then extended with get(); and every string handed to strtol/strtoul/pstrtod is one of these digit strings")
+    fn = db.fn("CPPPreprocessor::get_number")
+    cfg = fn.cfg
+    n = 0
+    seeded = {}
+    for st in fn.walk():
+        if st.get("k") != "decls":
+            continue
+        for d in st["d"]:
+            if "string" not in (d.get("ct") or d.get("t") or ""):
+                continue
+            i = strip_casts(peel(d.get("init"))) if d.get("init") is not None else None
+            if i is None or i.get("k") != "ctor":
+                seeded[d["d"]] = (d, None)
+                continue
+            args = [a for a in i.get("a", []) if a.get("k") != "defarg"]
+            src = local_ref(strip_casts(peel(args[1]))) if len(args) == 2 and const_int(args[0]) == 1 else None
+            seeded[d["d"]] = (d, src)
+            if src is None:
+                continue
+            n += 1
+            # last assignment to the source character before this declaration, within its block chain
+            ld = cfg.locate(st)
+            last = None
+            for x in fn.walk():
+                t = assigned_target(x)
+                if t and (local_ref(t[0]) or {}).get("d") == src["d"]:
+                    lx = cfg.locate(x)
+                    if lx is not None and ld is not None and lx[0] == ld[0] and lx[1] < ld[1]:
+                        if last is None or lx[1] > last[0][1]:
+                            last = (lx, x, t[1])
+            peeked = False
+            if last is not None:
+                r = strip_casts(peel(last[2]))
+                names = [callee_short(c) for c in walk(r) if c.get("k") == "call"]
+                peeked = "peek" in names and "get" not in names
+            # is the string extended by get() afterwards?
+            extended = any(x.get("k") == "call" and callee_short(x) in ("operator+=", "push_back", "append") and (local_ref(x["a"][0] if x.get("opc") else x.get("this")) or {}).get("d") == d["d"]
+                           and any(c.get("k") == "call" and callee_short(c) == "get" for c in walk(x)) for x in fn.walk())
+            ok = not (peeked and extended)
+            ctx.ob("R07.8", "get_number|%s|seed-is-consumed" % d["n"], ok, fn.loc(st),
+                   "`%s` is seeded from `%s`, %s" % (d["n"], src["n"], "a character already consumed" if not peeked else "which was only peeked (`%s`), and extended with get(): the first digit enters twice" % show(last[1])[:50]))
+    ctx.floor("R07.8", "digit strings seeded from a character", n, 1)
+    conv = [c for c in fn.walk() if c.get("k") == "call" and callee_short(c) in ("strtol", "strtoul", "strtoll", "strtoull", "pstrtod")]
+    for c in conv:
+        a0 = strip_casts(peel(c["a"][0])) if c.get("a") else None
+        if a0 is not None and a0.get("k") == "call" and callee_short(a0) in ("c_str", "data") and "this" in a0:
+            a0 = strip_casts(peel(a0["this"]))
+        r = local_ref(a0)
+        ok = r is not None and r.get("d") in seeded
+        ctx.ob("R07.8", "get_number|%s|converts-a-digit-string" % callee_short(c), ok, fn.loc(c), "%s converts %s" % (callee_short(c), show(a0)[:30] if a0 is not None else "?"))
+    ctx.floor("R07.8", "numeric conversions in get_number", len(conv), 4)
 
